@@ -41,6 +41,7 @@ type Prog struct {
 	stateFuns  map[string][]string
 	stateFunSorts map[string]string
 	globalMaps map[*ssa.Global][][2]*ssa.Const
+	finalFV    map[*ssa.FreeVar]bool
 }
 
 func goEnv() []string {
@@ -95,6 +96,7 @@ func LoadProg(repo, verif string) (*Prog, error) {
 	}
 	P.scanGlobals()
 	P.scanAddrFields()
+	P.scanFinalCaptures()
 	P.collectTypes()
 	return P, nil
 }
@@ -286,7 +288,74 @@ func (P *Prog) LoadContracts() error {
 			return err
 		}
 	}
-	return P.loadPreludeModules()
+	if err := P.loadPreludeModules(); err != nil {
+		return err
+	}
+	return P.mergeImplements()
+}
+
+// mergeImplements: a contract saying "implements X" imports the clauses of X (a generic callback
+// specification "@name" of the same package, or another contract key).
+func (P *Prog) mergeImplements() error {
+	done := map[string]bool{}
+	var merge func(c *Contract, depth int) error
+	merge = func(c *Contract, depth int) error {
+		if c.Impl == "" || done[c.Key] {
+			return nil
+		}
+		if depth > 5 {
+			return fmt.Errorf("%s: implements chain too deep", c.Key)
+		}
+		gk := c.Impl
+		if strings.HasPrefix(gk, "@") {
+			pp := c.PkgPath
+			if pp == "" {
+				pp = modPath
+			}
+			gk = pp + "." + gk
+		} else if !strings.Contains(gk, "/") && c.PkgPath != "" {
+			gk = c.PkgPath + "." + gk
+		}
+		g := P.cs.ByKey[gk]
+		if g == nil {
+			g = P.cs.ByKey[modPath+"."+c.Impl]
+		}
+		if g == nil {
+			return fmt.Errorf("%s (%s): implements unknown contract %s", c.Key, c.Src, c.Impl)
+		}
+		if err := merge(g, depth+1); err != nil {
+			return err
+		}
+		c.ImplKey = g.Key
+		if g.ImplKey != "" && strings.Contains(g.Key, "@") && !strings.Contains(g.Key, ".@") {
+			c.ImplKey = g.ImplKey
+		}
+		c.Requires = append(append([]*Clause{}, g.Requires...), c.Requires...)
+		c.NImportedReq = len(g.Requires)
+		c.Ensures = append(append([]*Clause{}, g.Ensures...), c.Ensures...)
+		c.Modifies = append(append([]*Sx{}, g.Modifies...), c.Modifies...)
+		c.HasMod = c.HasMod || g.HasMod
+		c.Uses = append(append([]string{}, g.Uses...), c.Uses...)
+		if len(c.Params) == 0 {
+			c.Params = g.Params
+		}
+		for k, v := range g.Extra {
+			c.Extra[k] = append(append([]*Sx{}, v...), c.Extra[k]...)
+		}
+		done[c.Key] = true
+		return nil
+	}
+	var keys []string
+	for k := range P.cs.ByKey {
+		keys = append(keys, k)
+	}
+	sort.Strings(keys)
+	for _, k := range keys {
+		if err := merge(P.cs.ByKey[k], 0); err != nil {
+			return err
+		}
+	}
+	return nil
 }
 
 // prelude modules: prelude/<name>.smt2; a line "; requires: a b" lists dependencies;
@@ -422,4 +491,80 @@ func (P *Prog) typeByName(name string) types.Type {
 		}
 	}
 	return nil
+}
+
+// scanFinalCaptures: a captured variable is "effectively final" when its cell is written once in the
+// enclosing function (its initialisation, before the closure is made) and never by a closure. Loads of
+// such a free variable always yield the value it had when the closure was created.
+func (P *Prog) scanFinalCaptures() {
+	P.finalFV = map[*ssa.FreeVar]bool{}
+	for f := range ssautil.AllFunctions(P.prog) {
+		if !P.isClover(f) {
+			continue
+		}
+		for _, b := range f.Blocks {
+			for _, in := range b.Instrs {
+				mc, ok := in.(*ssa.MakeClosure)
+				if !ok {
+					continue
+				}
+				g := mc.Fn.(*ssa.Function)
+				for i, bv := range mc.Bindings {
+					al, ok := bv.(*ssa.Alloc)
+					if !ok || i >= len(g.FreeVars) {
+						// forwarded free variable of the parent: final iff the parent's is
+						if pfv, ok := bv.(*ssa.FreeVar); ok && i < len(g.FreeVars) && P.finalFV[pfv] && !fvStored(g.FreeVars[i]) {
+							P.finalFV[g.FreeVars[i]] = true
+						}
+						continue
+					}
+					stores := 0
+					okUses := true
+					for _, r := range *al.Referrers() {
+						switch u := r.(type) {
+						case *ssa.Store:
+							if u.Addr == al {
+								stores++
+								if !u.Block().Dominates(mc.Block()) {
+									okUses = false
+								}
+							} else {
+								okUses = false
+							}
+						case *ssa.UnOp, *ssa.DebugRef:
+						case *ssa.MakeClosure:
+							// every closure capturing it must leave it alone
+							gg := u.Fn.(*ssa.Function)
+							for j, b2 := range u.Bindings {
+								if b2 == al && j < len(gg.FreeVars) && fvStored(gg.FreeVars[j]) {
+									okUses = false
+								}
+							}
+						default:
+							okUses = false
+						}
+					}
+					if okUses && stores <= 1 {
+						P.finalFV[g.FreeVars[i]] = true
+					}
+				}
+			}
+		}
+	}
+}
+
+func fvStored(fv *ssa.FreeVar) bool {
+	for _, r := range *fv.Referrers() {
+		switch u := r.(type) {
+		case *ssa.UnOp, *ssa.DebugRef:
+		case *ssa.Store:
+			if u.Addr == fv {
+				return true
+			}
+			return true
+		default:
+			return true // address escapes further (e.g. nested closure): be conservative
+		}
+	}
+	return false
 }
